@@ -1,6 +1,10 @@
 #![cfg_attr(feature = "nightly", feature(allocator_api))]
 pub mod aead;
+pub mod alloc_track;
 pub mod core;
 pub mod models;
 pub mod props;
 pub mod sodium;
+
+#[global_allocator]
+static GLOBAL: alloc_track::Tracking = alloc_track::Tracking;
